@@ -26,7 +26,7 @@ use std::time::Duration;
 
 #[cfg(not(kani))]
 thread_local! {
-    static OS_IPC_CHANNELS_FOR_DESERIALIZATION: RefCell<Vec<OsOpaqueIpcChannel>> =
+    static OS_IPC_CHANNELS_FOR_DESERIALIZATION: RefCell<Vec<Option<OsOpaqueIpcChannel>>> =
         RefCell::new(Vec::new())
 }
 #[cfg(not(kani))]
@@ -57,8 +57,9 @@ mod kani_tls {
     }
 }
 #[cfg(kani)]
-static OS_IPC_CHANNELS_FOR_DESERIALIZATION: kani_tls::KaniTls<RefCell<Vec<OsOpaqueIpcChannel>>> =
-    kani_tls::KaniTls(RefCell::new(Vec::new()));
+static OS_IPC_CHANNELS_FOR_DESERIALIZATION: kani_tls::KaniTls<
+    RefCell<Vec<Option<OsOpaqueIpcChannel>>>,
+> = kani_tls::KaniTls(RefCell::new(Vec::new()));
 #[cfg(kani)]
 static OS_IPC_SHARED_MEMORY_REGIONS_FOR_DESERIALIZATION: kani_tls::KaniTls<
     RefCell<Vec<Option<OsIpcSharedMemory>>>,
@@ -546,7 +547,7 @@ impl IpcReceiverSet {
                     os_receiver_id,
                     OpaqueIpcMessage {
                         data,
-                        os_ipc_channels,
+                        os_ipc_channels: os_ipc_channels.into_iter().map(Some).collect(),
                         os_ipc_shared_memory_regions: os_ipc_shared_memory_regions
                             .into_iter()
                             .map(Some)
@@ -610,15 +611,14 @@ impl<'de> Deserialize<'de> for IpcSharedMemory {
         if index == usize::MAX {
             Ok(IpcSharedMemory::empty())
         } else {
-            let os_shared_memory = OS_IPC_SHARED_MEMORY_REGIONS_FOR_DESERIALIZATION.with(
-                |os_ipc_shared_memory_regions_for_deserialization| {
-                    // FIXME(pcwalton): This could panic if the data was corrupt and the index was out
-                    // of bounds. We should return an `Err` result instead.
-                    os_ipc_shared_memory_regions_for_deserialization.borrow_mut()[index]
-                        .take()
-                        .unwrap()
-                },
-            );
+            let os_shared_memory = OS_IPC_SHARED_MEMORY_REGIONS_FOR_DESERIALIZATION
+                .with(|os_ipc_shared_memory_regions_for_deserialization| {
+                    os_ipc_shared_memory_regions_for_deserialization
+                        .borrow_mut()
+                        .get_mut(index)
+                        .and_then(Option::take)
+                })
+                .ok_or_else(|| invalid_attachment_index::<D::Error>(index))?;
             Ok(IpcSharedMemory {
                 os_shared_memory: Some(os_shared_memory),
             })
@@ -725,7 +725,7 @@ impl IpcSelectionResult {
 /// [to]: #method.to
 pub struct OpaqueIpcMessage {
     data: Vec<u8>,
-    os_ipc_channels: Vec<OsOpaqueIpcChannel>,
+    os_ipc_channels: Vec<Option<OsOpaqueIpcChannel>>,
     os_ipc_shared_memory_regions: Vec<Option<OsIpcSharedMemory>>,
 }
 
@@ -746,7 +746,7 @@ impl OpaqueIpcMessage {
     ) -> OpaqueIpcMessage {
         OpaqueIpcMessage {
             data,
-            os_ipc_channels,
+            os_ipc_channels: os_ipc_channels.into_iter().map(Some).collect(),
             os_ipc_shared_memory_regions: os_ipc_shared_memory_regions
                 .into_iter()
                 .map(Some)
@@ -917,7 +917,7 @@ where
         let (os_receiver, data, os_channels, os_shared_memory_regions) = self.os_server.accept()?;
         let value = OpaqueIpcMessage {
             data,
-            os_ipc_channels: os_channels,
+            os_ipc_channels: os_channels.into_iter().map(Some).collect(),
             os_ipc_shared_memory_regions: os_shared_memory_regions.into_iter().map(Some).collect(),
         }
         .to()?;
@@ -1035,11 +1035,27 @@ where
     D: Deserializer<'de>,
 {
     let index: usize = Deserialize::deserialize(deserializer)?;
+    take_os_ipc_channel_for_deserialization(index)
+        .map(|mut os_ipc_channel| os_ipc_channel.to_sender())
+        .ok_or_else(|| invalid_attachment_index::<D::Error>(index))
+}
+
+/// Takes the channel with the given index out of the message being deserialized,
+/// or `None` if the index is out of range or was already used.
+fn take_os_ipc_channel_for_deserialization(index: usize) -> Option<OsOpaqueIpcChannel> {
     OS_IPC_CHANNELS_FOR_DESERIALIZATION.with(|os_ipc_channels_for_deserialization| {
-        // FIXME(pcwalton): This could panic if the data was corrupt and the index was out of
-        // bounds. We should return an `Err` result instead.
-        Ok(os_ipc_channels_for_deserialization.borrow_mut()[index].to_sender())
+        os_ipc_channels_for_deserialization
+            .borrow_mut()
+            .get_mut(index)
+            .and_then(Option::take)
     })
+}
+
+fn invalid_attachment_index<E: serde::de::Error>(index: usize) -> E {
+    E::custom(format_args!(
+        "invalid or already used attachment index {} in IPC message",
+        index
+    ))
 }
 
 fn serialize_os_ipc_receiver<S>(
@@ -1064,11 +1080,9 @@ where
 {
     let index: usize = Deserialize::deserialize(deserializer)?;
 
-    OS_IPC_CHANNELS_FOR_DESERIALIZATION.with(|os_ipc_channels_for_deserialization| {
-        // FIXME(pcwalton): This could panic if the data was corrupt and the index was out
-        // of bounds. We should return an `Err` result instead.
-        Ok(os_ipc_channels_for_deserialization.borrow_mut()[index].to_receiver())
-    })
+    take_os_ipc_channel_for_deserialization(index)
+        .map(|mut os_ipc_channel| os_ipc_channel.to_receiver())
+        .ok_or_else(|| invalid_attachment_index::<D::Error>(index))
 }
 
 // verif hook H3: build an undecoded message from raw parts, and look at the side tables.
